@@ -1036,7 +1036,23 @@ def gen_meta_program(rng, path, nprocs, fmt=None, hints='-', ohints=None, flush_
         k = rng.below(5)
         t = rng.choice(targets)
         al = atts.get(id(t), [])
-        if k == 0 and al:                                  # overwrite an attribute without growing it
+        if k == 0 and al and rng.chance(1, 2):
+            # overwrite with ANOTHER type / element count: permitted in data mode iff the padded value does not need more header
+            # space (wider type with the same count must be refused with NC_ENOTINDEFINE, narrower type with more elements
+            # that fit must succeed, 1-3 bytes growing inside the same padded size must succeed)
+            a = rng.choice(al)
+            XS = {'byte': 1, 'char': 1, 'short': 2, 'int': 4, 'float': 4, 'double': 8, 'ubyte': 1, 'ushort': 2, 'uint': 4, 'int64': 8, 'uint64': 8}
+            xt2 = rng.choice([x for x in types if x != a[1]] or types)
+            n2 = rng.choice([a[2], a[2], max(1, a[2] - 1), a[2] + 1, max(1, a[2] * XS[a[1]] // XS[xt2])])
+            pad = lambda xt_, n_: (n_ * XS[xt_] + 3) // 4 * 4
+            p.all('put_att %s %s %s %d %s' % (tname(t), a[0], xt2, n2, ' '.join(str(rng.range(0, 100)) for _ in range(n2))))
+            if pad(xt2, n2) <= pad(a[1], a[2]):
+                a[1], a[2] = xt2, n2
+                p.tags.add('meta-datamode-put_att-retyped-fits')
+            else:
+                p.tags.add('meta-datamode-put_att-retyped-refused')
+            p.all('get_att %s %s double' % (tname(t), a[0]))
+        elif k == 0 and al:                                  # overwrite an attribute without growing it
             a = rng.choice(al)
             if a[1] == 'char':
                 p.all('put_att %s %s char %d %s' % (tname(t), a[0], a[2], ''.join('%02x' % rng.range(65, 90) for _ in range(a[2])) or '-'))
